@@ -77,10 +77,16 @@ Fixpoint field_leaves (under : bool) (f : field) : list leaf :=
 
 Definition leaves (fs : pspec) : list leaf := concat_map (field_leaves false) fs.
 
+(* the integer widths Rust has *)
+Definition width_ok (bits : N) : bool :=
+  (bits =? 8) || (bits =? 16) || (bits =? 32) || (bits =? 64) || (bits =? 128).
+
 Definition wf_st (t : sty') : bool :=
   match st_ty t, st_name t with
-  | TEnum _, Some _ => true
+  | TEnum (_ :: _), Some _ => true
+  | TEnum [], Some _ => false       (* an enum without variants has no values *)
   | TEnum _, None => false
+  | TInt _ bits, None => width_ok bits
   | _, None => true
   | _, Some _ => false
   end.
@@ -453,6 +459,11 @@ Definition extract_path_p (fs : pspec) (ws : list (str * wseg)) : res xerr (list
   if existsb (fun w => mem_str (fst w) (flat_bad fs)) ws
   then (do _ <- bind_vars ws; Err (XBadPath MInvalidType))
   else extract_path (serde_view fs) ws.
+
+(* no field of a 128-bit integer type (serde_urlencoded refuses those whatever
+   the value: finding K9a of C09) *)
+Definition no_128 (fs : pspec) : bool :=
+  forallb (fun l => negb (is_128 (st_ty (lf_ty l)))) (leaves fs).
 
 (* ------------------------------------------------------------ documented values *)
 
